@@ -91,7 +91,7 @@ def run(tier, replay=None):
 
     # ---- (1) model <-> arena.c on operation sequences (with save / load / mutated loads)
     if lres.get("driver_ok") and not replay:
-        f, cov, u = ac.ops_tie(chk, b, 400 if tier == "quick" else 6000, PID + "/ops")
+        f, cov, u = ac.ops_tie(chk, b, 400 if tier == "quick" else 6000, PID + "/ops", loads="full")
         found |= f
         ubs |= u
         chk.cov.update(cov)
@@ -106,11 +106,11 @@ def run(tier, replay=None):
     env1 = ac.scratch_env(PID)
     env2 = ac.scratch_env(PID, {"ASAN_OPTIONS": ac.ENV["ASAN_OPTIONS"] + ":malloc_fill_byte=17:max_malloc_fill_size=268435456",
                                 "VF_PAD": "x" * 3000, "MALLOC_PERTURB_": "85"})
-    out1, rc1, err1 = core.run_parallel([b["h_save"]], lines, env=env1)
+    out1, rc1, err1 = core.run_parallel(ac.capped(b["h_save"]), lines, env=env1)
     lines2 = [second_process_line(l, r) for l in lines]
-    out2, rc2, err2 = core.run_parallel([b["h_save"]], lines2, env=env2)
+    out2, rc2, err2 = core.run_parallel(ac.capped(b["h_save"]), lines2, env=env2)
     lines3 = [l + " init=%d" % r.choice([2, 24, 512, 100000]) for l in lines]
-    out3, rc3, err3 = core.run_parallel([bp["h_save"]], lines3, env=ac.scratch_env(PID, {"MALLOC_PERTURB_": "170"}))
+    out3, rc3, err3 = core.run_parallel(ac.capped(bp["h_save"]), lines3, env=ac.scratch_env(PID, {"MALLOC_PERTURB_": "170"}))
     d3 = {}
     for l in out3:
         d = ac.fields(ac.split_ub(l)[0])
